@@ -459,6 +459,8 @@ def expected(line):
             return method_call(op[2:], args)
         if op in MATH_FNS:
             return math_fn(op, args)
+        if op in POLY_PREDS:
+            return poly_pred(op, args)
         if op in POLY_CHAINS:
             # (compare< a b c ...): every adjacent pair in order of *mathematical value* (exact rationals, +-inf), left to right,
             # first failure decides
@@ -627,6 +629,62 @@ def math_lines(rng, n, nums):
         lines.append("%s n:%016x n:%016x" % ("math/gcd" if i % 3 else "math/lcm", f2b(a), f2b(b)))
     lines += ["math/gcd s:4 n:4018000000000000", "math/gcd n:4018000000000000 t:4", "math/lcm u:4 u:6", "math/floor s:3", "math/abs s:-3", "math/round t:1",
               "math/gcd n:4018000000000000", "math/floor n:4018000000000000 n:4018000000000000"]
+    return lines
+
+
+# ------------------------------------------------------------------------------------------------- boot.janet predicates
+POLY_PREDS = {"zero?": lambda v: v == 0, "pos?": lambda v: v > 0, "neg?": lambda v: v < 0, "one?": lambda v: v == 1, "even?": 0, "odd?": 1}
+
+
+def poly_pred(op, args):
+    """zero? pos? neg? one? on any numeric value (by mathematical value); even? odd? on boxed integers and integer-valued numbers of
+    magnitude <= 2^53 (a non-integer number goes through the IEEE formula of `mod`: no claim)"""
+    if len(args) != 1:
+        raise Err("arity")
+    t, v = args[0]
+    if t == "t":
+        return None
+    if t == "n":
+        if v != v:
+            return None
+        if op in ("even?", "odd?"):
+            if abs(v) == math.inf or v != math.floor(v) or abs(v) > T53:
+                return None
+            return "b:%d" % (int(v) % 2 == POLY_PREDS[op])
+        return "b:%d" % POLY_PREDS[op](v)
+    if op in ("even?", "odd?"):
+        return "b:%d" % (v % 2 == POLY_PREDS[op])
+    return "b:%d" % POLY_PREDS[op](v)
+
+
+def pred_lines(rng, n, P):
+    lines = []
+    names = list(POLY_PREDS)
+    near = [0, 1, -1, 2, -2, 3, T53, -T53, T53 - 1, 1 - T53, T53 + 1, S63 - 1, -S63, S63, M64 - 1, M64 - 2, 1 << 32, (1 << 32) + 1]
+    for i in range(n):
+        op = names[i % len(names)]
+        k = rng.below(6)
+        if k == 0:
+            v = rng.choice(near)
+            t = rng.choice("nsu")
+            if t == "s" and not (-S63 <= v < S63):
+                t = "n"
+            if t == "u" and not (0 <= v < M64):
+                t = "n"
+            tok = "n:%016x" % f2b(float(v)) if t == "n" else "%s:%d" % (t, v)
+        elif k == 1:
+            tok = P.fmt("s", rng.choice(P.s))
+        elif k == 2:
+            tok = P.fmt("u", rng.choice(P.u))
+        elif k == 3:
+            tok = "n:%016x" % f2b(float(rng.range(-T53, T53)))
+        elif k == 4:
+            tok = P.fmt("n", rng.choice(P.n))
+        else:
+            tok = rng.choice(["n:%016x" % f2b(x) for x in (0.0, -0.0, 0.5, -0.5, 1.0000000000000002, 0.9999999999999999, -0.9999999999999999, 2.5, 1e300, -1e300, 5e-324,
+                                                            -5e-324, math.inf, -math.inf, math.nan)] + ["t:0", "t:abc", "s:0", "u:0", "u:1", "s:-1"])
+        lines.append("%s %s" % (op, tok))
+    lines += ["zero? s:0 s:0", "even? n:4000000000000000 n:4000000000000000"]
     return lines
 
 
